@@ -23,7 +23,7 @@ CONSTANTS MaxSpine,       \* nested container levels (0 = scalar / leaf root)
           Alpha,          \* "tiny" | "small" | "full": step alphabet for paths of length <= 2
           Alpha3,         \* "none" | "p" | "small": alphabet for paths of length 3
           Reuse,          \* BOOLEAN: the same Assign spec object is evaluated a second time, on another target
-          Profiles        \* subset of {"plain", "vals", "miss", "missval", "missflag", "star", "dstar", "starmiss", "reuse", "litval"}
+          Profiles        \* subset of {"plain", "vals", "miss", "missval", "missflag", "star", "dstar", "starmiss", "reuse", "litval", "edge", "falsyval"}
 
 VARIABLES exp,           \* what the law expects for the case (Ref(case))
           round,         \* 1: first evaluation of the spec object, 2: second evaluation (Reuse)
@@ -80,12 +80,18 @@ SmallParent == {Step("P", VStr("a")), Step("P", VStr("x")), Step("P", VStr("0"))
 SmallFinal == SmallParent \cup {Step("P", VStr("5")), Step("[", VInt(5)), Step("[", VInt(-1)), Step(".", VStr("r"))}
 FullParent == SmallParent \cup {Step("P", VStr("5")), Step("[", VInt(5)), Step("P", VInt(0)), Step("P", VStr("-1")),
                                 Step("[", VInt(1)), Step("P", VStr("b"))}
-FullFinal == FullParent \cup SmallFinal \cup {Step("[", VStr("b")), Step(".", VStr("b")), Step("P", VStr("1"))}
+TinyParent == {Step("P", VStr("a")), Step("P", VStr("x")), Step("[", VStr("a"))}
+TinyFinal == TinyParent \cup {Step(".", VStr("a"))}
+\* boundary indices of the 1- and 2-element lists of the targets (-len-1, -len, len-1, len, len+1) and the
+\* falsy key ''
+EdgeFinal == {Step("[", VInt(-3)), Step("[", VInt(-2)), Step("[", VInt(1)), Step("[", VInt(2)), Step("[", VInt(3)),
+              Step("P", VStr("-2")), Step("P", VStr("2")), Step("P", VStr("1")), Step("[", VStr("")), Step("P", VStr(""))}
+EdgePaths == {<<f>> : f \in EdgeFinal} \cup {<<p, f>> : p \in TinyParent, f \in EdgeFinal}
+TinyPaths2 == {<<f>> : f \in TinyFinal} \cup {<<p, f>> : p \in TinyParent, f \in TinyFinal}
+FullFinal == FullParent \cup SmallFinal \cup EdgeFinal \cup {Step("[", VStr("b")), Step(".", VStr("b"))}
 PParent == {Step("P", VStr("a")), Step("P", VStr("x")), Step("P", VStr("0"))}
 PFinal == PParent \cup {Step("P", VStr("5"))}
 
-TinyParent == {Step("P", VStr("a")), Step("P", VStr("x")), Step("[", VStr("a"))}
-TinyFinal == TinyParent \cup {Step(".", VStr("a"))}
 Parent2 == CASE Alpha = "tiny" -> TinyParent [] Alpha = "small" -> SmallParent [] OTHER -> FullParent
 Final2 == CASE Alpha = "tiny" -> TinyFinal [] Alpha = "small" -> SmallFinal [] OTHER -> FullFinal
 Parent3 == CASE Alpha3 = "p" -> PParent [] Alpha3 = "small" -> SmallParent [] OTHER -> {}
@@ -106,7 +112,8 @@ StarPaths == {<<X, f>> : f \in Final2} \cup {<<X, X, f>> : f \in Final2}
 W == {X, XX}
 StarMissPaths == {<<p, w, f>> : p \in Parent2, w \in W, f \in TinyFinal}
                  \cup {<<p, q, w, f>> : p \in TinyParent, q \in TinyParent, w \in W, f \in TinyFinal}
-PathsFor(prof, h) == IF prof = "star" THEN StarPaths ELSE IF prof = "dstar" THEN DeepPaths
+PathsFor(prof, h) == IF prof = "edge" THEN EdgePaths ELSE IF prof = "falsyval" THEN TinyPaths2
+                     ELSE IF prof = "star" THEN StarPaths ELSE IF prof = "dstar" THEN DeepPaths
                      ELSE IF prof = "starmiss" THEN StarMissPaths ELSE IF prof \in {"miss", "missval", "missflag", "reuse", "litval"} \/ Len(h) - Extra >= 2 THEN Paths2 \cup Paths3 ELSE Paths2
 
 \* ---- values, missing, faults ---------------------------------------------------------
@@ -127,24 +134,32 @@ LitVals ==
     LitC(1, << Cell("dict", << <<VStr("p"), VRf(2)>>, <<VStr("q"), VRf(2)>>, <<VStr("t"), TLeaf>> >>),
                Cell("dict", << <<VStr("k"), VInt(1)>> >>) >>),                               \* aliased dict + T leaf
     LitC(1, << Cell("dict", << <<VStr("me"), VRf(1)>>, <<VStr("l"), VRf(2)>> >>), Cell("list", <<VRf(2), VRf(1)>>) >>) }
+\* falsy values are ordinary values: 0, '', False, None, and the empty literals [] and {}
+FalsyVals == {Lit(VInt(0)), Lit(VStr("")), Lit(VBool(FALSE)), Lit(VNone),
+              LitC(1, << Cell("list", <<>>) >>), LitC(1, << Cell("dict", <<>>) >>)}
 Miss(m, f) == [m |-> m, f |-> f]
 NoMiss == {Miss("none", 0)}
 Factories == {Miss("dict", f) : f \in 0..2} \cup {Miss("obj", f) : f \in 0..1} \cup {Miss("list", 0)}
+             \cup {Miss("sdict", 0)}                 \* a factory handing out one shared dict
 
 NoFlags(h) == [a \in 1..Len(h) |-> ""]
-Applicable(cls) == CASE cls \in {"dict", "list"} -> {"wfault"} [] cls = "obj" -> {"wfault", "prop"} [] OTHER -> {}
+Applicable(cls) == CASE cls \in {"dict", "list"} -> {"wfault"} [] cls = "obj" -> {"wfault", "prop", "slots"} [] OTHER -> {}
+\* (a slotted object has no __dict__, so a wildcard finds no children in it: no "slots" flag on wildcard paths)
+NoSlots(F) == {fl \in F : \A a \in 1..Len(fl) : fl[a] # "slots"}
 OneFlag(h) == UNION {{[a \in 1..Len(h) |-> IF a = b THEN f ELSE ""] : f \in Applicable(h[b].cls)} : b \in 1..(Len(h) - Extra)}
 
 ValsFor(prof) == CASE prof = "vals" -> OtherVals
                    [] prof = "missval" -> {VT(<<>>), VSpec(<<Step("P", VStr("a"))>>), VT(<<Step("[", VStr("b"))>>)}
                    [] prof = "litval" -> LitVals
+                   [] prof = "falsyval" -> FalsyVals
                    [] OTHER -> {Lit(VInt(9))}
 MissFor(prof) == CASE prof \in {"plain", "vals", "star", "dstar"} -> NoMiss
                    [] prof = "starmiss" -> {Miss("dict", 0), Miss("dict", 1), Miss("obj", 0), Miss("list", 0)} [] prof = "miss" -> Factories
                    [] prof = "reuse" -> {Miss("dict", 0), Miss("obj", 0)}
-                   [] prof = "litval" -> {Miss("none", 0), Miss("dict", 0)}
+                   [] prof \in {"litval", "falsyval", "edge"} -> {Miss("none", 0), Miss("dict", 0)}
                    [] OTHER -> {Miss("dict", 0)}
-FlagsFor(prof, h) == CASE prof \in {"plain", "star", "dstar"} -> {NoFlags(h)} \cup OneFlag(h) [] prof = "missflag" -> OneFlag(h)
+FlagsFor(prof, h) == CASE prof = "plain" -> {NoFlags(h)} \cup OneFlag(h) [] prof = "missflag" -> OneFlag(h)
+                       [] prof \in {"star", "dstar"} -> {NoFlags(h)} \cup NoSlots(OneFlag(h))
                        [] OTHER -> {NoFlags(h)}
 
 Blank == [kind |-> "assign", heap0 |-> <<>>, flags |-> <<>>, root |-> VNone, steps |-> <<>>, val |-> Lit(VNone),
